@@ -704,8 +704,9 @@ def binding(ctx):
     for base, locs in sorted(sites.items()):
         ok = base in RAW_ALLOWED
         if base == 'semantic::types::Type::raw':
-            callers = [g.id for g in P.fns.values() if base in P.callees(g.id)]
-            ok = not callers
+            # calling the constructor is constructing the value where the call is: the callers must be reviewed construction sites
+            callers = [re.sub(r'(::\{closure#\d+\})+$', '', g.id) for g in P.fns.values() if base in P.callees(g.id) and not g.raw.get('derived')]
+            ok = all(c_ in RAW_ALLOWED for c_ in callers)
         ctx.ob(['C11', 'C19'], 'R-REACH', 'C11-D1|Type::Raw-from|%s' % short(base), ok,
                ('Type::Raw constructed in %s: %s' % (short(base), RAW_ALLOWED.get(base))) if ok else 'a named type reference is constructed outside the resolver, in %s' % base, locs[0])
     rs = [f for f in P.fns.values() if f.id.endswith('TypeRegistry::resolve_string')]
